@@ -949,7 +949,7 @@ func TestVerifC31(t *testing.T) {
 		const chunk = 32
 		var next int64
 		var capped atomic.Bool
-		var evals, nontriv int64
+		var evals, nontriv, sampled int64
 		var wg sync.WaitGroup
 		for w := 0; w < workers; w++ {
 			wg.Add(1)
@@ -987,7 +987,7 @@ func TestVerifC31(t *testing.T) {
 							e.seen[r.Sig] = struct{}{}
 							rep.Outcome(r.Sig, r.NonTrivial)
 						}
-						if r.NonTrivial && i%997 == 0 && rep.WantSample() {
+						if r.NonTrivial && len(r.Viols) == 0 && i*3 >= l.N && atomic.AddInt64(&sampled, 1) <= 2 {
 							rep.Sample(map[string]any{"case": c, "outcome": r.Sig})
 						}
 						if len(r.Viols) > 0 {
